@@ -59,7 +59,8 @@ func (x *Run) intrinsic(fr *Frame, st *State, fn *ssa.Function, args []Val, site
 		case "ResetEvents":
 			return single(st, unit), true
 		case "Called", "CalledWith", "CalledBefore", "CallCount", "Sent", "SentOn", "ClosedEv", "Recovered", "CalledInIter", "CalledWithInIter",
-			"RetInt", "RetErr", "RetBool", "RetStr", "Ret", "NthArg", "NthRet", "NetDelta":
+			"RetInt", "RetErr", "RetBool", "RetStr", "Ret", "NthArg", "NthRet", "NetDelta",
+			"IterArg", "IterRet", "HandlerName", "FreshInIter":
 			return single(st, x.freshVal(st, "trace", fn.Signature.Results().At(0).Type())), true
 		}
 	}
@@ -743,17 +744,38 @@ func (x *Run) evalPure(fr *Frame, st *State, fn *ssa.Function, args []Val, bound
 	x.pureDepth--
 	term := "false"
 	first := true
+	exported := map[string]bool{}
 	for i := len(outs) - 1; i >= 0; i-- {
 		o := outs[i]
 		if o.panic {
 			continue
 		}
+		// Engine assumptions made inside the pure function (type ranges,
+		// A-NONNIL at a dereference, ...) hold only on the branch that made
+		// them: they are exported guarded by the branch conditions that
+		// precede them, never unconditionally (an unconditional export made
+		// the caller's path condition contradictory whenever a guarded
+		// dereference was infeasible, discharging obligations vacuously).
 		var conds []string
+		condsBound := false
 		for _, c := range o.st.pc[p0:] {
 			if pcKind(c) == 'c' {
 				conds = append(conds, pcPlain(c))
+				if mentionsAny(pcPlain(c), bound) {
+					condsBound = true
+				}
 			} else if !mentionsAny(pcPlain(c), bound) {
-				st.assume(pcPlain(c))
+				a := pcPlain(c)
+				if len(conds) > 0 {
+					if condsBound {
+						continue
+					}
+					a = implies(and(conds...), a)
+				}
+				if !exported[a] {
+					exported[a] = true
+					st.assume(a)
+				}
 			}
 		}
 		if first {
@@ -776,6 +798,7 @@ func (x *Run) oblige(st *State, name, kind, goal string, pos token.Pos, note str
 		return
 	}
 	ob := &Obligation{Name: name, Kind: kind, Unit: x.unit, Pos: x.posStr(pos), Goal: goal, Trace: append([]string(nil), st.trace...), Note: note}
+	ob.pcRef = st.pc[:len(st.pc):len(st.pc)]
 	if goal == "true" {
 		ob.Static = true
 		ob.StaticOK = true
@@ -816,6 +839,7 @@ func (x *Run) obligeStatic(st *State, name, kind string, ok bool, pos token.Pos,
 		return
 	}
 	ob := &Obligation{Name: name, Kind: kind, Unit: x.unit, Pos: x.posStr(pos), Static: true, StaticOK: ok, Trace: append([]string(nil), st.trace...), Note: note}
+	ob.pcRef = st.pc[:len(st.pc):len(st.pc)]
 	x.mu.Lock()
 	x.obls = append(x.obls, ob)
 	x.mu.Unlock()
